@@ -450,3 +450,242 @@ def check_generator(ctx, rep, rule=RULE + '.generator'):
     else:
         rep.violates(rule, g, 'def generate', 'a path returns a name without advancing the counter: the same name is handed out again')
     return 2
+
+
+# ---- R-EPS.const: a fixed epsilon must be fresh for the alphabet it is put next to ----------------------------------------
+
+def _const_text(ctx, f, e, depth=0):
+    """the constant string an expression denotes (through NewType casts, single-definition locals, `self.x` set once in
+    __init__), or None"""
+    if depth > 5 or e is None:
+        return None
+    if isinstance(e, ast.Constant) and isinstance(e.value, str):
+        return e.value
+    if isinstance(e, ast.Call) and len(e.args) == 1 and not e.keywords and isinstance(e.func, (ast.Name, ast.Attribute)):
+        r = ctx.resolve_call(f, e)
+        nm = u(e.func).split('.')[-1]
+        if (r is None or r.kind != 'func') and nm.lower().endswith(('symbol', 'state')):
+            return _const_text(ctx, f, e.args[0], depth + 1)
+    if isinstance(e, ast.Name):
+        d = single_def(f, e.id)
+        if len(d) == 1:
+            return _const_text(ctx, f, d[0], depth + 1)
+        return None
+    if isinstance(e, ast.Attribute) and u(e.value) == 'self' and f.cls is not None:
+        stores = []
+        for m in f.cls.methods.values():
+            for n in walk_no_nested(m.node):
+                if isinstance(n, (ast.Assign, ast.AnnAssign)):
+                    tg = n.targets if isinstance(n, ast.Assign) else [n.target]
+                    if any(u(t) == u(e) for t in tg) and n.value is not None:
+                        stores.append((m, n.value))
+        if len(stores) == 1:
+            return _const_text(ctx, stores[0][0], stores[0][1], depth + 1)
+    return None
+
+
+def check_epsilon_constants(ctx, rep, funcs, rule='R-EPS.const'):
+    """NFA(Q, Sigma, delta, q0, F, eps) / PDA(..., eps) with eps a fixed non-empty text: the constructor asserts
+    eps not in Sigma, so the construction fails (no automaton) for every operand whose alphabet contains that text --
+    unless the alphabet is a literal, or the call is dominated by the test eps not in Sigma.  The empty string is not a
+    symbol (symbols are non-empty by every parser of the library), so '' is always fresh.  Pattern rule: no floor."""
+    n = 0
+    for f in funcs:
+        for cname in ('NFA', 'PDA'):
+            for c in ctor_call(ctx, f, cname):
+                eps = ctor_arg(ctx, c, cname, 'epsilon')
+                if eps is None:
+                    continue
+                text = _const_text(ctx, f, eps)
+                if text is None:
+                    # an epsilon drawn from a provider: it must be asked about the alphabet the automaton gets
+                    er = resolve_alias(f, eps)
+                    r = ctx.resolve_call(f, er) if isinstance(er, ast.Call) else None
+                    if r is not None and r.kind == 'func' and r.target.name.startswith('fresh') and er.args:
+                        sig = ctor_arg(ctx, c, cname, 'Sigma')
+
+                        def base(x):
+                            x = resolve_alias(f, x) if x is not None else None
+                            while isinstance(x, ast.Call) and isinstance(x.func, ast.Attribute) and x.func.attr == 'copy' and not x.args:
+                                x = resolve_alias(f, x.func.value)
+                            return u(x) if x is not None else None
+                        n += 1
+                        if base(er.args[0]) == base(sig):
+                            rep.holds(rule, f, c, 'the epsilon is requested from {} for the very alphabet the automaton is built with'.format(r.target.name))
+                            check_provider(ctx, rep, r.target)
+                        else:
+                            rep.violates(rule, f, c, 'the epsilon is requested from {} for `{}`, but the automaton is built with the alphabet `{}`: it need not be fresh for that alphabet'.format(
+                                r.target.name, u(er.args[0]), u(sig) if sig is not None else '?'))
+                    continue
+                if text == '':
+                    continue
+                sig = ctor_arg(ctx, c, cname, 'Sigma')
+                sig_r = resolve_alias(f, sig) if sig is not None else None
+                if isinstance(sig_r, ast.Set) and all(_const_text(ctx, f, x) is not None and _const_text(ctx, f, x) != text for x in sig_r.elts):
+                    continue
+                n += 1
+                fx = ctx.facts(f)
+                nid = fx.stmt_of_expr(c)
+                atoms = fx.guard_atoms(nid) if nid is not None else set()
+                guarded = any(a[0] == 'in' and a[3] is False and a[1] == u(eps) and sig is not None and a[2] in (u(sig), u(sig_r) if sig_r is not None else '') for a in atoms)
+                if guarded:
+                    rep.holds(rule, f, c, 'the fixed epsilon {!r} is tested against the alphabet before the automaton is built'.format(text))
+                else:
+                    rep.violates(rule, f, c, 'the automaton is built with the fixed epsilon {!r} next to an alphabet that comes from the operand ({}): for an operand whose alphabet contains {!r} '
+                                 'the constructor assertion `epsilon not in Sigma` fails and no automaton is produced; the epsilon must be chosen fresh for the alphabet'.format(text, u(sig) if sig is not None else '?', text))
+    return n
+
+
+def check_epsilon_forwarded(ctx, rep, funcs, rule='R-EPS.default'):
+    """a callee with a defaulted parameter `epsilon` that is called without it works with the default ('' in this
+    library); a caller that has an epsilon of its own -- a parameter `epsilon`, or an automaton operand with a field
+    .epsilon that it reads -- must pass it on, or the callee and the caller disagree on which symbol is the silent one.
+    Pattern rule: no floor."""
+    n = 0
+    for f in funcs:
+        own = None
+        if any(p == 'epsilon' for p in f.params):
+            own = 'epsilon'
+        else:
+            for x in walk_no_nested(f.node):
+                if isinstance(x, ast.Attribute) and x.attr == 'epsilon' and isinstance(x.value, ast.Name) and x.value.id in f.params:
+                    own = u(x)
+                    break
+        if own is None:
+            continue
+        for c in ctx.prog.calls_in(f):
+            r = ctx.resolve_call(f, c)
+            if r is None:
+                continue
+            g = r.target if r.kind == 'func' else (ctx.prog.find_method(r.target, '__init__') if r.kind == 'class' else None)
+            if g is None or g is f:
+                continue
+            ps = [p.arg for p in g.pos_params if p.arg != 'self'] if r.kind == 'class' or g.cls is not None else [p.arg for p in g.pos_params]
+            if 'epsilon' not in ps or 'epsilon' not in g.defaults:
+                continue
+            i = ps.index('epsilon')
+            if isinstance(c.func, ast.Attribute) and r.kind == 'func' and g.cls is not None and g.pos_params and g.pos_params[0].arg == 'self' and 'self' in ps:
+                i -= 1
+            bound = len(c.args) > i or any(k.arg == 'epsilon' or k.arg is None for k in c.keywords) or any(isinstance(a, ast.Starred) for a in c.args)
+            n += 1
+            if bound:
+                rep.holds(rule, f, c, 'the epsilon of the caller is passed on to {}'.format(g.name), nontrivial=False)
+            else:
+                rep.violates(rule, f, c, '{} has its own epsilon ({}) but calls {} without it: the callee works with its default epsilon, so for an automaton whose epsilon differs from the default the two disagree on which symbol is the silent one'.format(f.name, own, g.name))
+    return n
+
+
+# ---- R-EPS.word: only input symbols are appended to words -----------------------------------------------------------------
+
+def _is_delta(f, e):
+    e = resolve_alias(f, e)
+    return isinstance(e, ast.Attribute) and e.attr == 'delta'
+
+
+def _keyed_like_delta(ctx, f, e, depth=0):
+    """True when the mapping denoted by e has the keys of a transition relation: it is X.delta, or it was filled under
+    the keys of a loop over X.delta (possibly in a callee that returns it)"""
+    if depth > 2:
+        return False
+    if _is_delta(f, e):
+        return True
+    if not isinstance(e, ast.Name):
+        return False
+    # filled locally:  for (q, a), Q in N.delta.items(): M[(q, a)] = ...
+    for lp in walk_no_nested(f.node):
+        if isinstance(lp, ast.For) and _iter_of_delta(f, lp.iter) and isinstance(lp.target, ast.Tuple):
+            key = lp.target.elts[0] if _iter_kind(lp.iter) == 'items' else lp.target
+            for s in ast.walk(lp):
+                if isinstance(s, ast.Assign) and len(s.targets) == 1 and isinstance(s.targets[0], ast.Subscript) and u(s.targets[0].value) == e.id \
+                        and u(s.targets[0].slice).strip('()') == u(key).strip('()'):
+                    return True
+    # returned by a callee as the i-th component
+    for s in walk_no_nested(f.node):
+        if isinstance(s, ast.Assign) and len(s.targets) == 1 and isinstance(s.targets[0], ast.Tuple) and isinstance(s.value, ast.Call):
+            names = [u(x) for x in s.targets[0].elts]
+            if e.id in names:
+                r = ctx.resolve_call(f, s.value)
+                if r is not None and r.kind == 'func':
+                    g = r.target
+                    for ret in walk_no_nested(g.node):
+                        if isinstance(ret, ast.Return) and isinstance(ret.value, ast.Tuple) and len(ret.value.elts) == len(names):
+                            return _keyed_like_delta(ctx, g, ret.value.elts[names.index(e.id)], depth + 1)
+    return False
+
+
+def _iter_kind(it):
+    if isinstance(it, ast.Call) and isinstance(it.func, ast.Attribute) and it.func.attr in ('items', 'keys') and not it.args:
+        return it.func.attr
+    return 'keys'
+
+
+def _iter_base(it):
+    if isinstance(it, ast.Call) and isinstance(it.func, ast.Attribute) and it.func.attr in ('items', 'keys') and not it.args:
+        return it.func.value
+    return it
+
+
+def _iter_of_delta(f, it):
+    return _is_delta(f, _iter_base(it))
+
+
+def check_word_symbols(ctx, rep, funcs, rule='R-EPS.word'):
+    """in an operation on an automaton with silent moves (NFA, PDA) the keys of the transition relation carry input
+    symbols AND the epsilon symbol; a symbol that is appended to a word must come from the alphabet, or be tested against
+    epsilon / the alphabet first -- otherwise a silent move is spelled out as a letter (invisible while epsilon is '')."""
+    n = 0
+    for f in funcs:
+        top = f
+        while top.parent is not None:
+            top = top.parent
+        kinds = set()
+        for p0 in top.pos_params:
+            if p0.annotation is not None and u(p0.annotation).split('.')[-1] in ('NFA', 'PDA'):
+                kinds.add(u(p0.annotation).split('.')[-1])
+        if not kinds:
+            continue
+        # loop targets bound to the symbol slot of a key of a delta-like mapping
+        binders = []
+        for lp in walk_no_nested(f.node):
+            gens = []
+            if isinstance(lp, ast.For):
+                gens.append((lp.target, lp.iter, lp))
+            if isinstance(lp, (ast.ListComp, ast.SetComp, ast.GeneratorExp, ast.DictComp)):
+                gens += [(g.target, g.iter, lp) for g in lp.generators]
+            for (tg, it, node) in gens:
+                base = _iter_base(it)
+                if not _keyed_like_delta(ctx, f, base):
+                    continue
+                key = tg
+                if _iter_kind(it) == 'items':
+                    if not (isinstance(tg, ast.Tuple) and len(tg.elts) == 2):
+                        continue
+                    key = tg.elts[0]
+                if isinstance(key, ast.Tuple) and len(key.elts) >= 2 and isinstance(key.elts[1], ast.Name):
+                    binders.append((key.elts[1].id, node, it))
+        if not binders:
+            continue
+        fx = ctx.facts(f)
+        for (sym, node, it) in binders:
+            for e in ast.walk(node):
+                if isinstance(e, ast.BinOp) and isinstance(e.op, ast.Add) and any(isinstance(x, ast.Name) and x.id == sym for x in (e.left, e.right)):
+                    other = e.right if (isinstance(e.left, ast.Name) and e.left.id == sym) else e.left
+                    t = ctx.env(f).type_of(other)
+                    if t is not None and t[0] not in ('str', 'any', 'top', 'unknown'):
+                        continue
+                    n += 1
+                    nid = fx.stmt_of_expr(e)
+                    atoms = set(fx.guard_atoms(nid)) if nid is not None else set()
+                    from ..astutil import expr_guard_atoms
+                    try:
+                        atoms |= set(expr_guard_atoms(f.node, e))
+                    except Exception:
+                        pass
+                    ok = any((a[0] == 'eq' and a[3] is False and sym in (a[1], a[2]) and 'epsilon' in (a[1] + a[2])) or
+                             (a[0] == 'in' and a[3] is True and a[1] == sym and a[2].endswith('Sigma')) for a in atoms)
+                    if ok:
+                        rep.holds(rule, f, e, 'the symbol taken from a key of the transition relation is tested against epsilon / the alphabet before it is appended to a word')
+                    else:
+                        rep.violates(rule, f, e, 'the symbol `{}` is taken from the keys of the transition relation (`{}`), which include the epsilon symbol of the {}, and is appended to a word without a test: '
+                                     'a silent move is spelled out as a letter, so words containing the epsilon symbol are produced (invisible while epsilon is the empty string)'.format(sym, u(it), '/'.join(sorted(kinds))))
+    return n
